@@ -12,5 +12,5 @@ def run(ctx):
     plan = "all:2,2,2;rand:3,3,2:%d;rand:4,3,3:%d" % ((25, 6) if quick else (400, 100))
     solids.judge_stage(ctx, "voxel", ["c07-voxel", "plan=" + plan, "rays=%d" % (40 if quick else 80),
                                       "spheres=%d" % (20 if quick else 40), "sdf=%d" % (40 if quick else 80)],
-                       {"panic", "scan", "count", "hits", "first", "sphere", "sdf-dist", "sdf-point", "contains"},
+                       {"panic", "scan", "count", "hits", "first", "sphere", "sdf-dist", "sdf-point", "contains", "concurrent"},
                        judge="geom/VoxelJudge", timeout=3000)
